@@ -105,6 +105,8 @@ def run(ctx):
         ab = [(x, y) for x in (0, 1, 2, n - 1, n, n + 1, -1, 2 * n, 2 * n + 1, rnd.randrange(n)) for y in (0, 1, 2, n - 1, n, -1, 2 * n + 1, rnd.randrange(n))]
         if quick:
             ab = rnd.sample(ab, 24) + [(1, 1), (1, n - 1), (n - 1, 1), (0, 0), (2, 2), (n, n)]
+        # multipliers of opposite sign and very different size (the digit strings of the two differ in length)
+        ab += [(1, -100), (3, -7), (2, -(n + 5)), (-9, 4), (-(2 * n + 3), -5), (-1, 1000), (255, -256), (-4097, 2)]
         for chunk in [pts[i::4] for i in range(4)]:
             if chunk:
                 jobs.append(((p, a % p, b), n, chunk, ks, ab, ctx.seed, True))
